@@ -61,6 +61,7 @@ type ModVer struct {
 	Files     []FileSpec `json:"files"`
 	EmptyMod  bool       `json:"empty_mod,omitempty"`  // the stored .mod file is empty
 	EmptyInfo bool       `json:"empty_info,omitempty"` // the stored .info file is empty
+	Many      int        `json:"many,omitempty"`       // directory layout only: this many further small files gen/fNNN.go
 }
 
 type Req struct {
@@ -145,6 +146,9 @@ func genPlan(t *rapid.T, tier string) any {
 			}
 			f.Big = rapid.IntRange(0, 9).Draw(t, "big") == 0
 			m.Files = append(m.Files, f)
+		}
+		if m.Layout == "dir" && rapid.IntRange(0, 5).Draw(t, "many") == 0 {
+			m.Many = rapid.IntRange(60, 75).Draw(t, "nmany")
 		}
 		p.Mods = append(p.Mods, m)
 	}
@@ -397,6 +401,11 @@ func run(t *testing.T, plan any, keep bool) *simcheck.Outcome {
 }
 
 // layout writes the modules to disk (raw OS: this is the input, not the system under test).
+func manyName(k int) string { return fmt.Sprintf("gen/f%03d.go", k) }
+func manyBody(m ModVer, k int) []byte {
+	return []byte(fmt.Sprintf("package gen // file %d of %s@%s\n", k, paths[m.Path], versions[m.Ver]))
+}
+
 func layout(dir string, mods []ModVer) {
 	for _, m := range mods {
 		name := strings.ReplaceAll(escape(paths[m.Path]), "/", "_") + "_" + escape(versions[m.Ver])
@@ -409,6 +418,9 @@ func layout(dir string, mods []ModVer) {
 			ents = append(ents, ent{fileNames[f.Name], body(m, f)})
 		}
 		if m.Layout == "dir" {
+			for k := 0; k < m.Many; k++ {
+				ents = append(ents, ent{manyName(k), manyBody(m, k)})
+			}
 			for _, e := range ents {
 				fp := filepath.Join(dir, name, filepath.FromSlash(e.name))
 				os.MkdirAll(filepath.Dir(fp), 0o777)
@@ -502,6 +514,11 @@ func runWith(t *testing.T, p *Plan, out *simcheck.Outcome, dir, other string, ke
 				continue
 			}
 			z[paths[m.Path]+"@"+versions[m.Ver]+"/"+fileNames[f.Name]] = string(body(*m, f))
+		}
+		if m.Layout == "dir" {
+			for k := 0; k < m.Many; k++ {
+				z[paths[m.Path]+"@"+versions[m.Ver]+"/"+manyName(k)] = string(manyBody(*m, k))
+			}
 		}
 		return url, expect{code: 200, zip: z}
 	}
@@ -738,7 +755,7 @@ var harness = &simcheck.Harness{
 	Property: "C20",
 	Level:    "exploration",
 	Rule: "rapid draws a module directory (1-5 module versions over 4 paths incl. upper-case and /v2, 11 versions incl. pre-release, the three pseudo-version forms, +incompatible, upper-case and invalid-for-path ones; " +
-		".txt, .txtar or directory layout; .info, .mod, nested files, top-level and nested dot files, empty files, now and then a 70 KB file, files without final newline), optionally an earlier Server of the same process over a directory that disagrees with this one (asked for everything it stores, then closed), then 2-5 client tasks with 1-5 requests each " +
+		".txt, .txtar or directory layout; .info, .mod, nested files, top-level and nested dot files, empty files, now and then a 70 KB file, files without final newline, directory modules with 60-75 further small files), optionally an earlier Server of the same process over a directory that disagrees with this one (asked for everything it stores, then closed), then 2-5 client tasks with 1-5 requests each " +
 		"(list / .info / .mod / .zip of stored and absent versions, near-miss spellings of stored versions such as v1, v1.0, v1.0.0+meta, malformed URLs, unrelated files dropped into the served directory between requests, a storm of 10-24 requests for distinct module paths that do not exist, requests by commit hash (the pseudo-version's, or the one recorded in a stored version's .info, asked of that or of another module path: 404 when it names no stored version of the path, otherwise unasserted), and client faults: a client that has given up before the handler runs (cancelled context, unasserted), slow clients whose headers or response writes take 1-120 simulated seconds against whatever time limits the server was configured with; two thirds of the clients share their first request) and a schedule; " +
 		"non-trivial = more context switches than clients+3; distinct by decision-trace hash",
 	Gen:     genPlan,
